@@ -10,17 +10,25 @@ E7b == E7a \cup { Asg("$a", e) : e \in E7a } \cup { Asg("$b", e) : e \in E7a }
            \cup { Call1("abs", SelE(Id("y"), "k")), <<"Call", Id("max"), <<Id("x"), SelE(Id("y"), "k")>>, FALSE>>,
                   <<"Call", Id("min"), <<Id("x"), SelE(Id("y"), "k")>>, FALSE>>, Call1("fail", N(1)),
                   Asg("x", N(1)), <<"Bin", "=", SelE(Id("y"), "k"), N(1)>>, <<"Bin", "=", N(1), N(2)>>, Asg("x", Asg("$a", N(1))),
+                  <<"Bin", "=", SelE(Id("$a"), "k"), N(1)>>, <<"Bin", "=", SelE(Id("$b"), "x"), Id("x")>>,     \* a member of a local is no bare name either
                   Asg("n$", N(1)), Asg("x$y", Id("x")), Asg("_$", N(2)),          \* "$" inside or at the end of a name does not make a local
                   SelE(Id("y"), "l"), Call1("floor", SelE(Id("y"), "k")), <<"Bin", "*", Id("x"), SelE(Id("y"), "k")>> }
 Par7(e) == IF Level(e) >= 1 THEN e ELSE P(e)
 GroupsC07 == { <<"one">> } \cup { <<"comma", a>> : a \in E7b } \cup { <<"arr", a>> : a \in E7b } \cup { <<"recs", a>> : a \in E7b }
-             \cup { <<"cond">>, <<"seq3">> }
+             \cup { <<"cond">>, <<"seq3">>, <<"callee">> }
 GroupProgramsC07(g) ==
   CASE g[1] = "one" -> E7b
     [] g[1] = "comma" -> { <<"Bin", ",", g[2], b>> : b \in E7b }
     [] g[1] = "arr" -> { <<"Arr", <<g[2], b>>>> : b \in E7b }
     [] g[1] = "recs" -> { <<"Call", Id("recs"), <<g[2], b>>, FALSE>> : b \in E7b }
     [] g[1] = "cond" -> { <<"Cond", c, a, b>> : c \in {Id("$a"), N(0), P(Asg("$b", N(1)))}, a \in E7a \cup {Asg("$a", N(2))}, b \in E7a \cup {Asg("$a", N(1))} }
+    \* left to right also inside a call: the callee is read before the arguments are evaluated, so a local rebound in an
+    \* argument does not change which function is called
+    [] g[1] = "callee" ->
+         { <<"Bin", ",", Asg("$a", Id(f1)), <<"Call", Id("$a"), <<P(<<"Bin", ",", Asg("$a", v2), e>>)>>, FALSE>>>> :
+              f1 \in {"rec", "fail"}, v2 \in {Id("rec"), Id("fail"), N(5), KwL("null")}, e \in {N(1), Id("x")} }
+         \cup { <<"Bin", ",", Asg("$a", Id("y")), <<"Sel", Id("$a"), "k", FALSE>>>>,
+                <<"Bin", ",", <<"Bin", ",", Asg("$a", Id("rec")), <<"Call", Id("$a"), <<Asg("$b", N(2)), <<"Bin", "+", Id("$b"), N(1)>>>>, FALSE>>>>, Id("$b")>> }
     [] g[1] = "seq3" -> { <<"Bin", ",", <<"Bin", ",", a, b>>, c>> : a \in {Asg("$a", N(1)), Asg("$a", Id("x"))},
                             b \in {Asg("$b", Id("$a")), Asg("$a", <<"Bin", "+", Id("$a"), N(1)>>), Call1("rec", Id("$a"))},
                             c \in {Id("$a"), Id("$b"), <<"Arr", <<Id("$a"), Id("$b")>>>>} }
